@@ -9,7 +9,7 @@ from .common import absorb, blank, brief_scn, run_scn, termination
 ID = 'C07'
 LEVEL = 'exploration'
 TIERS = {'quick': 4000, 'thorough': 150000}
-RULE = ('seeded pushes of a real file, a BytesIO or a real directory (1-5 regular files, process cwd elsewhere with same-named decoys, listdir order '
+RULE = ('seeded pushes of a real file, a BytesIO or a real directory (1-5 regular files, process cwd elsewhere with same-named decoy files or decoy directories, listdir order '
         'from the scenario) with sizes biased to 0, 1, chunk+-1, maxdata+-k, exact send-buffer fits and multiples of the chunk size, maxdata 4 KiB..1 MiB, '
         'device paths up to 1024 bytes, mode/mtime values (0 => now), progress callback absent / counting / raising / re-entering the device with a stat() (sync), sync and async; the device\'s '
         'sync service decodes the stream. Cases with a callback are run again without it and the host packet logs compared. '
@@ -69,7 +69,7 @@ def generate(seed, tier):
             order = list(names)
             g.r.shuffle(order)
             op['order'] = order
-            op['decoy'] = g.chance(0.7)
+            op['decoy'] = g.pick([True, True, 'dirs', False])
             if g.chance(0.3):
                 op['subdirs'] = []
             d['cmds']['mkdir ' + path] = {'content': {'size': 0}, 'cuts': []}
